@@ -614,8 +614,33 @@ inductive TimerTick where
 /-- time passes (`d` seconds) without the session being polled: the timers' tasks go on (a tick that falls
 due is queued in the timer's channel, `Rc/Model/Timer.lean`), nothing else happens.  Exact as long as no
 timer collects two un-awaited ticks of which the older one is then discarded by a `reset()` (the hold
-timer is the only one the session resets) - the driver refuses lines that could get there. -/
+timer is the only one the session resets): see `staleInput`. -/
 def clockWait (c : Clock) (d : Nat) : Clock := { c with now := c.now + d }
+
+/-- two ticks of the hold timer are outstanding at the clock `c.now`: the one due at `t` sits in the timer's
+channel (capacity 1), the one due at `t + hold` in the timer task's blocked `send` (timers.rs `timer_inner`) -/
+def holdTwoDue (cfg : Cfg) (c : Clock) : Bool :=
+  match c.hold with
+  | some t => decide (t + holdInterval cfg ≤ c.now)
+  | none => false
+
+/-- one of the statements `acts` is a `hold_timer.reset()` of a running hold timer with two ticks outstanding.
+`Timer::reset` drains the channel, which lets the blocked `send` complete: that second tick SURVIVES the reset
+(the `stale` field of `Rc.Timer.Spec`, `Spec.call .reset`: `stale := out2.2`) and the next `tick()` hands it
+out at once.  `Clock` has no counterpart of it: this is where `Clock` stops being exact. -/
+def staleExec (cfg : Cfg) (o : OpenInfo) : St → Clock → List Act → Bool
+  | _, _, [] => false
+  | s, c, a :: rest =>
+    (match a with | .resetHold => s.hold && holdTwoDue cfg c | _ => false) ||
+      staleExec cfg o (execAct cfg o s a).1 (clockAct cfg s c a) rest
+
+/-- handling the input `i` in state `s` at clock `c` resets the hold timer while two of its ticks are
+outstanding (the driver and `Rc.Thm.C08.timedStep` end the history there; c08.rs refuses the same lines from
+its own bookkeeping of the instants the hold timer was armed) -/
+def staleInput (cfg : Cfg) (s : St) (c : Clock) (i : Input) : Bool :=
+  match inputEvent cfg s i with
+  | some e => staleExec cfg (openOf e) s c (actsOfEvent cfg s e)
+  | none => false
 
 /-- mirrors the three timer branches of `Session::tick` when nothing else is pending: the timer
 whose tick comes first fires, `tick` raises ITS event (`self.handle_event(..).await?`).  The paused
